@@ -25,7 +25,7 @@ def energies(env_df, z, rng, nrand, knots_step):
             es.add(math.exp(math.log(lo) + rng.random() * (math.log(hi) - math.log(lo))))
     for (zz, sh), e in env_df["edges"].items():
         if zz == z and e > 0:
-            es.update([e * (1 - 1e-9), e * (1 + 1e-9)])
+            es.update([e * (1 - 1e-9), e, xrl.round11(e), e * (1 + 1e-9)])
     es.update([0.0, -1.0, 1e-300, 1e300, 0.5, 5.0, 50.0, 500.0])
     return sorted(es)
 
